@@ -312,8 +312,12 @@ func (r *relay) processor(id uint32) Processor {
 }
 
 func (r *relay) updateTableSize(v uint32) {
+	// The remote encoder learns about the new limit only when the forwarded
+	// SETTINGS frame reaches it and announces the change with a dynamic table
+	// size update. Header blocks already in flight are still encoded against
+	// the old table, so the decoder must not be resized here.
 	r.decoderMu.Lock()
-	r.decoder.SetMaxDynamicTableSize(v)
+	r.decoder.SetAllowedMaxDynamicTableSize(v)
 	r.decoderMu.Unlock()
 
 	r.encoderMu.Lock()
